@@ -147,18 +147,27 @@ def run(pid, tier, seed):
         t = ([],); t[0].append(t)
         dd = collections.defaultdict(list); dd["x"].append(dd)
         m = {1: None}; m[1] = [m, "s"]
+        root = []; child = [root]; root.append(child)
+        holder = {"items": None, "n": 1}; inner = [holder]; holder["items"] = inner
         return [("list-in-itself", l), ("dict-tree-with-parent-links", d), ("tuple-list-cycle", t), ("defaultdict-cycle", dd),
-                ("int-keyed-dict-cycle", m), ("two-cyclic-values", [l, d])]
+                ("int-keyed-dict-cycle", m), ("two-cyclic-values", [l, d]), ("parent-child-lists", root), ("cycle-below-a-dict", holder)]
+    # each alone, and merged with acyclic values of a similar shape (the cut-off of a cycle next to real element types)
+    companions = [[1], [[1]], [[[1]]], [[[[1]]]], {"items": [{"items": [], "n": 2}], "n": 3}, {"kids": [], "up": None}, ([[2]],)]
     for name, v in cyclic_values():
-        for k in (0, 3):
-            chk.evaluations += 1
-            chk.count("cyclic." + name)
-            try:
-                t = eng.impl_infer([v], k)
-                if not oracle.conforms(v, t):
-                    chk.fail("member", {"k": k, "cyclic_value": name, "type": repr(t)[:300]})
-            except BaseException as e:
-                chk.fail("terminates", {"k": k, "cyclic_value": name, "error": repr(e)[:200]})
+        for k in (0, 3, 10):
+            for comp in [None] + companions:
+                chk.evaluations += 1
+                chk.count("cyclic." + name)
+                vs = [v] if comp is None else [v, comp]
+                try:
+                    t = eng.impl_infer(vs, k)
+                    for x in vs:
+                        if not oracle.conforms(x, t):
+                            chk.fail("member", {"k": k, "cyclic_value": name, "merged_with": repr(comp), "type": repr(t)[:300],
+                                                "detail": "the value%s is not a member of the inferred type" % ("" if x is v else " merged with it")})
+                            break
+                except BaseException as e:
+                    chk.fail("terminates", {"k": k, "cyclic_value": name, "merged_with": repr(comp), "error": repr(e)[:200]})
 
     def search(broken):
         """intensified failing-input search after a broken obligation / correspondence"""
